@@ -29,6 +29,29 @@ func (l *sentinelLoader) Load(name string) (string, error) {
 }
 func (l *sentinelLoader) Exists(name string) bool { _, ok := l.src[name]; return ok || name == l.name }
 
+type flakyLoader struct {
+	src   map[string]string
+	mtime map[string]int64
+	fail  map[string]error
+}
+
+func (l *flakyLoader) Load(name string) (string, error) {
+	if err, ok := l.fail[name]; ok {
+		return "", err
+	}
+	if s, ok := l.src[name]; ok {
+		return s, nil
+	}
+	return "", fmt.Errorf("%w: %s", twig.ErrTemplateNotFound, name)
+}
+func (l *flakyLoader) Exists(name string) bool { _, ok := l.src[name]; return ok }
+func (l *flakyLoader) GetModifiedTime(name string) (int64, error) {
+	if _, ok := l.src[name]; !ok {
+		return 0, fmt.Errorf("%w: %s", twig.ErrTemplateNotFound, name)
+	}
+	return l.mtime[name], nil
+}
+
 func runC17(e *Env) error {
 	r := e.Rep
 	rg := e.Rng
@@ -95,6 +118,36 @@ func runC17(e *Env) error {
 		if res.Err == nil || !errors.Is(res.Err, sentinel) || res.Out != "" {
 			r.Violate(Violation{Key: "loader-cause-lost", What: fmt.Sprintf("%q with a failing loader: output %q, error %v — the loader's cause is not reachable with errors.Is", src, res.Out, res.Err),
 				Broken: "theorem C17_propagates (loader causes; implementation-only oracle)", Replay: map[string]any{"kind": "loader", "src": src, "err": fmt.Sprint(res.Err), "out": res.Out}})
+		}
+	}
+	// a loader that starts failing after a successful load (auto-reload): the failure must surface, not the stale copy
+	{
+		ld := &flakyLoader{src: map[string]string{"main": "v1{% include 'part' %}", "part": "P1"}, mtime: map[string]int64{"main": 1, "part": 1}}
+		res := guarded(func() (string, error) {
+			eng := twig.New()
+			eng.RegisterLoader(ld)
+			eng.SetAutoReload(true)
+			if out, err := eng.Render("main", nil); err != nil || out != "v1P1" {
+				return "", fmt.Errorf("first render: %q %v", out, err)
+			}
+			ld.mtime["part"] = 5
+			ld.fail = map[string]error{"part": sentinel}
+			out, err := eng.Render("main", nil)
+			if err == nil || !errors.Is(err, sentinel) || out != "" {
+				return "", fmt.Errorf("STALE-SERVED: after the loader started failing Render returned %q, %v", out, err)
+			}
+			ld.fail = nil
+			delete(ld.src, "part")
+			out, err = eng.Render("main", nil)
+			if err == nil || out != "" {
+				return "", fmt.Errorf("STALE-SERVED: after the template was removed Render returned %q, %v", out, err)
+			}
+			return "ok", nil
+		})
+		r.Seen("loader:flaky", true)
+		if res.Class != "" {
+			r.Violate(Violation{Key: "reload-failure-swallowed", What: fmt.Sprintf("auto-reload of a template whose loader fails or lost it: %v %s", res.Err, truncate(res.Panic, 200)),
+				Broken: "theorem C17_propagates (loader causes; implementation-only oracle)", Replay: map[string]any{"kind": "flaky-loader", "err": fmt.Sprint(res.Err)}})
 		}
 	}
 	// recorded finding: `<failing expression>.attr is defined` swallows the failure
